@@ -728,10 +728,152 @@ fn case_derive(bytes: &[u8], ctx: &mut Ctx) -> CaseResult {
     Ok(())
 }
 
+// ---------------------------------------------------------------------------
+// several keys, one after the other, on one thread. The derivation laws are laws
+// about single keys; an implementation that keeps any per-thread or global state
+// between calls (memoised intermediates, caches keyed by a fingerprint) can obey
+// them for every key taken alone and break them for a sequence. Sequences are
+// therefore generated, and the second key is chosen adversarially with respect
+// to the only short identity the API exposes: `get_fingerprint()` (32 bits).
+// Pairs of distinct master keys with EQUAL fingerprints are found once per
+// process by a birthday search over 2^18 seeds (expected ~8 pairs; deterministic).
+
+const COLLISION_SEARCH: u32 = 1 << 18;
+
+fn counter_seed(c: u32) -> [u8; 32] {
+    let mut seed = [0u8; 32];
+    seed[..4].copy_from_slice(&c.to_be_bytes());
+    seed[31] = 0x16;
+    seed[30] = 0xc0;
+    seed
+}
+
+/// pairs of seed counters whose master public keys share their fingerprint
+fn fingerprint_collisions() -> &'static Vec<(u32, u32)> {
+    static C: std::sync::OnceLock<Vec<(u32, u32)>> = std::sync::OnceLock::new();
+    C.get_or_init(|| {
+        let threads = 16u32;
+        let per = COLLISION_SEARCH / threads;
+        let mut all: Vec<(u32, u32)> = std::thread::scope(|sc| {
+            let hs: Vec<_> = (0..threads)
+                .map(|t| {
+                    sc.spawn(move || {
+                        (t * per..(t + 1) * per)
+                            .map(|c| (SecretKey::from_seed(&counter_seed(c)).public_key().get_fingerprint(), c))
+                            .collect::<Vec<(u32, u32)>>()
+                    })
+                })
+                .collect();
+            hs.into_iter().flat_map(|h| h.join().expect("collision search thread")).collect()
+        });
+        all.sort_unstable();
+        let mut out = vec![];
+        for w in all.windows(2) {
+            if w[0].0 == w[1].0 {
+                out.push((w[0].1, w[1].1));
+            }
+        }
+        out
+    })
+}
+
+fn commute_all(sk: &SecretKey, idx: u32, who: &str, step: usize) -> CaseResult {
+    let pk = sk.public_key();
+    vensure!(
+        master_to_wallet_unhardened_intermediate(sk).public_key() == master_to_wallet_unhardened_intermediate(&pk),
+        "C16:sequence:master_to_wallet_unhardened_intermediate:does-not-commute",
+        "step {step} (key {who}): helper on the secret key then public_key() differs from the helper on the public key"
+    );
+    vensure!(
+        master_to_wallet_unhardened(sk, idx).public_key() == master_to_wallet_unhardened(&pk, idx),
+        "C16:sequence:master_to_wallet_unhardened:does-not-commute",
+        "step {step} (key {who}), index {idx}: helper on the secret key then public_key() differs from the helper on the public key"
+    );
+    vensure!(
+        sk.derive_unhardened(idx).public_key() == pk.derive_unhardened(idx),
+        "C16:sequence:derive_unhardened:does-not-commute",
+        "step {step} (key {who}), index {idx}"
+    );
+    vensure!(
+        sk.derive_synthetic().public_key() == pk.derive_synthetic(),
+        "C16:sequence:derive_synthetic:does-not-commute",
+        "step {step} (key {who})"
+    );
+    // the same call twice gives the same answer
+    vensure!(
+        master_to_wallet_unhardened(&pk, idx) == master_to_wallet_unhardened(&pk, idx),
+        "C16:sequence:master_to_wallet_unhardened:not-a-function-of-its-arguments",
+        "step {step} (key {who}), index {idx}: two identical calls differ"
+    );
+    Ok(())
+}
+
+fn case_sequence(bytes: &[u8], ctx: &mut Ctx) -> CaseResult {
+    let mut s = Src::new(bytes);
+    let cols = fingerprint_collisions();
+    let a_seed: [u8; 32];
+    let b_seed: [u8; 32];
+    let kind = s.weighted(&[3, 5, 1, 1]);
+    match kind {
+        1 if !cols.is_empty() => {
+            let (x, y) = cols[s.below(cols.len())];
+            let (x, y) = if s.bool() { (x, y) } else { (y, x) };
+            a_seed = counter_seed(x);
+            b_seed = counter_seed(y);
+            ctx.label("sequence:fingerprint-colliding-pair");
+        }
+        2 => {
+            a_seed = s.array();
+            b_seed = a_seed;
+            ctx.label("sequence:same-key-twice");
+        }
+        3 => {
+            // neighbours in the collision search space (no collision)
+            let c = s.u32() % COLLISION_SEARCH;
+            a_seed = counter_seed(c);
+            b_seed = counter_seed(c ^ 1);
+            ctx.label("sequence:independent-keys");
+        }
+        _ => {
+            a_seed = s.array();
+            b_seed = s.array();
+            ctx.label("sequence:independent-keys");
+        }
+    }
+    let a = SecretKey::from_seed(&a_seed);
+    let b = SecretKey::from_seed(&b_seed);
+    if kind == 1 && !cols.is_empty() {
+        assert!(a.public_key() != b.public_key() && a.public_key().get_fingerprint() == b.public_key().get_fingerprint(), "collision table");
+    }
+    let n = 2 + s.below(5);
+    let mut order = vec![];
+    for step in 0..n {
+        let use_b = if step == 0 { false } else if step == 1 { true } else { s.bool() };
+        let idx = gen_idx(&mut s);
+        order.push((use_b, idx));
+    }
+    ctx.render(|| format!("key A seed {}, key B seed {} (fingerprints {} / {}), calls: {order:?}", hx(&a_seed), hx(&b_seed), a.public_key().get_fingerprint(), b.public_key().get_fingerprint()));
+    for (step, (use_b, idx)) in order.iter().enumerate() {
+        if *use_b {
+            commute_all(&b, *idx, "B", step)?;
+        } else {
+            commute_all(&a, *idx, "A", step)?;
+        }
+    }
+    let mut f = Fnv::new();
+    f.write(&a_seed).write(&b_seed);
+    for (u, i) in &order {
+        f.write(&[u8::from(*u)]).write(&i.to_be_bytes());
+    }
+    ctx.nontrivial(f.finish());
+    ctx.ran_dry(s.ran_dry());
+    Ok(())
+}
+
 fn main() {
     let prop = Property {
         id: "C16",
-        rule: "cases are (a) values: keys from 32-byte seeds, their sums/negations, signatures, aggregate signatures, pairing outputs — round-tripped through to_bytes/from_bytes/from_bytes_unchecked/Streamable; (b) 48- and 96-byte strings: valid encodings, each flag-bit combination flipped, infinity encodings with stray bits, a coordinate +/- the field modulus, random x with the compression bit (on the curve half of the time, then outside the subgroup), single bit flips, random bytes; (c) 32-byte scalars around r and 2r, bit flips of r, random; (d) seeds x derivation paths of length 0..6 over {0,1,2^31-1,2^31,2^32-1,random} x hidden puzzle hashes. Non-trivial = (b) a string accepted by unchecked parsing (the decision then rests on the subgroup test), (c) an accepted scalar, (d) a path of length >= 2, (a) every case. Distinct by the decoded bytes / seed+path.",
+        rule: "cases are (a) values: keys from 32-byte seeds, their sums/negations, signatures, aggregate signatures, pairing outputs — round-tripped through to_bytes/from_bytes/from_bytes_unchecked/Streamable; (b) 48- and 96-byte strings: valid encodings, each flag-bit combination flipped, infinity encodings with stray bits, a coordinate +/- the field modulus, random x with the compression bit (on the curve half of the time, then outside the subgroup), single bit flips, random bytes; (c) 32-byte scalars around r and 2r, bit flips of r, random; (d) seeds x derivation paths of length 0..6 over {0,1,2^31-1,2^31,2^32-1,random} x hidden puzzle hashes; (e) sequences of 2-6 derivation calls alternating between two master keys (independent, identical, or distinct with equal get_fingerprint()). Non-trivial = (b) a string accepted by unchecked parsing (the decision then rests on the subgroup test), (c) an accepted scalar, (d) a path of length >= 2, (a) every case. Distinct by the decoded bytes / seed+path.",
         assumptions: &[
             "subgroup membership is decided independently by (r-1)*P + P == 0 using scalar_multiply and point addition (scalar_multiply reduces its scalar modulo r, so r*P cannot be asked directly); correctness of blst's generic point multiplication/addition on curve points outside the subgroup is trusted",
             "unique encoding is asserted as: parse(b) = Ok(x) => to_bytes(x) = b (checked and unchecked), and for secret keys: accepted => integer value < r",
@@ -812,6 +954,15 @@ fn main() {
                     "derive:path-len:6",
                     "add:sum-is-zero",
                 ],
+            },
+            SubCheck {
+                name: "key-sequences",
+                about: "the derivation laws for 2-6 calls on two master keys in sequence on one thread; the second key is independent, identical, or a DIFFERENT key with the SAME 32-bit fingerprint (pairs found by a birthday search over 2^18 seeds)",
+                source: Source::Random { len: 128, quick: 6_000, thorough: 120_000 },
+                run: case_sequence,
+                inflight: false,
+                min_nontrivial: 3_000,
+                required_labels: &["sequence:fingerprint-colliding-pair", "sequence:same-key-twice", "sequence:independent-keys"],
             },
         ],
     };
